@@ -236,7 +236,7 @@ def lex_input_ok(text: str) -> bool:
 
 def model_tie(ctx: vlib.Ctx):
     rng = ctx.rng
-    n = ctx.budget(500, 6000)
+    n = ctx.budget(500, 4000)
     # ---- repr / ascii
     strings = list(CORPUS) + [c for c in ALPHABET]
     while len(strings) < n:
@@ -406,7 +406,7 @@ HAND_EXPRS = ["(1)", "( 1 , 2 )", "(1,)", "((1))", "((),)", "()", "( )", "(1 2)"
 
 def lit_tie(ctx: vlib.Ctx):
     rng = ctx.rng
-    n = ctx.budget(400, 4000)
+    n = ctx.budget(400, 3000)
     vals = [(), ("it's",), ("a", 1), (("x",), ()), (True, None, -1), ("'", '"', "\\"), (b"\x00'", "\ud800"), 10**40, -(10**20)]
     while len(vals) < n:
         vals.append(rand_lit(rng))
@@ -625,7 +625,7 @@ def float_law(ctx: vlib.Ctx):
 
 def line_tie(ctx: vlib.Ctx):
     rng = ctx.rng
-    n = ctx.budget(700, 6000)
+    n = ctx.budget(700, 4000)
     lines = set()
     for code in GENERATED:
         for ln in code.split("\n"):
@@ -1362,7 +1362,7 @@ def classify(pos: str, s: str, fails) -> dict:
 
 def oracle(ctx: vlib.Ctx, boost: bool = False):
     rng = ctx.rng
-    n = ctx.budget(600, 8000)
+    n = ctx.budget(600, 5000)
     if boost:
         n *= 2
     strings = list(CORPUS)
